@@ -144,3 +144,49 @@ func ZZ_C10_UniqueUnderConcurrency() {
 		}
 	}
 }
+
+// C10 over the whole range of the record counter: a session is created when
+// the process-wide counter has ANY value; other subscribers' creates then
+// move the counter on by any amount (modelled as a jump to any larger value
+// followed by one real create of another subscriber, so that whatever the
+// increment does at a boundary happens); a second session of the first
+// subscriber with the same consumer name gets a different reference, and
+// the first reference still designates the first session's record.
+//
+//gosx:property=C10 tier=quick unwind=40 timeout=30000
+func ZZ_C10_UniqueOverTheCounterRange() {
+	p := zzSetup()
+	self := chf_context.GetSelf()
+	c0 := vx.Uint64("counter0")
+	vx.Assume(c0 < 1<<62)
+	self.LocalRecordSequenceNumber = c0
+	reqA := zzCreateReq("A", zzSupi)
+	cA := &gin.Context{}
+	p.HandleChargingdataInitial(cA, reqA)
+	vx.Assert("first create answered 201", vx.HTTPStatus(cA) == 201)
+	jump := vx.Uint64("jump")
+	vx.Assume(jump >= self.LocalRecordSequenceNumber && jump < 1<<62)
+	self.LocalRecordSequenceNumber = jump
+	cX := &gin.Context{}
+	p.HandleChargingdataInitial(cX, zzCreateReq("X", zzSupi2))
+	vx.Assert("another subscriber's create answered 201", vx.HTTPStatus(cX) == 201)
+	reqC := zzCreateReq("C", zzSupi)
+	reqC.NfConsumerIdentification.NFName = reqA.NfConsumerIdentification.NFName
+	vx.Assume(reqA.ChargingId != reqC.ChargingId)
+	cC := &gin.Context{}
+	p.HandleChargingdataInitial(cC, reqC)
+	vx.Assert("second create answered 201", vx.HTTPStatus(cC) == 201)
+	locA, locC := vx.HTTPHeader(cA, "Location"), vx.HTTPHeader(cC, "Location")
+	vx.Assert("the two session references differ", locA != locC)
+	if len(locA) > len(zzRefPrefix) {
+		ue, ok := self.ChfUeFindBySupi(zzSupi)
+		if ok {
+			rec := ue.Cdr[locA[len(zzRefPrefix):]]
+			ok = rec != nil && rec.ChargingFunctionRecord != nil && rec.ChargingFunctionRecord.ChargingID != nil
+			vx.Assert("the first reference designates a record", ok)
+			if ok {
+				vx.Assert("it is the record the first create opened", rec.ChargingFunctionRecord.ChargingID.Value == int64(reqA.ChargingId))
+			}
+		}
+	}
+}
